@@ -67,7 +67,7 @@ def run(ctx: common.Ctx):
         '(guarded hook) over several limit schedules: those runs may only lose peptides, and the '
         'limits of the completing attempt must equal the Lean model of caller_reducer. '
         'non-trivial = run reporting >= 1 peptide')
-    base = dict(vary=True, per_tx=(1, 7), max_size=6, window=24, witness=False)
+    base = dict(vary=True, per_tx=(1, 7), max_size=6, window=24, witness=False, as_frac=0.3)
     res = cv_checks.explore(ctx, ctx.n(200, 4000),
                             dict(base, exception=None, variations=['limits', 'timeout']))
     s1 = dict(ctx.coverage['worker_stats'])
